@@ -327,7 +327,7 @@ impl Prop for C04 {
 // ------------------------------------------------------------------ C17
 
 pub struct C17 {
-    cases: Vec<(ConnCfg, u32)>,
+    cases: Vec<(ConnCfg, u32, u32, u32)>,
 }
 
 impl C17 {
@@ -377,7 +377,7 @@ impl Prop for C17 {
                 for sel in [0u32, 2, 8, 3] {
                     let offered: u32 = if c.use_nla { 3 } else { 1 };
                     if sel == 0 || sel & offered != sel {
-                        cs.push((c.clone(), sel));
+                        cs.push((c.clone(), sel, 0u32, 0u32));
                     }
                 }
                 let sels: Vec<u32> = if c.use_nla { vec![2, 1] } else { vec![1] };
@@ -385,7 +385,16 @@ impl Prop for C17 {
                     for order in 0..4u8 {
                         let mut c2 = c.clone();
                         c2.builder_order = order;
-                        cs.push((c2, sel));
+                        cs.push((c2, sel, 0u32, 0u32));
+                    }
+                    // server versions (info packet with / without extended info) and CHALLENGE flag sets
+                    for ver in [0x00080001u32, 0x00080005, 0x0008000C, 0] {
+                        cs.push((c.clone(), sel, ver, 0u32));
+                    }
+                    if sel == 2 {
+                        for without in [vref::ntlm::F_SEAL, vref::ntlm::F_SIGN, vref::ntlm::F_SEAL | vref::ntlm::F_SIGN, vref::ntlm::F_128, vref::ntlm::F_ALWAYS_SIGN] {
+                            cs.push((c.clone(), sel, 0u32, without));
+                        }
                     }
                 }
             }
@@ -397,11 +406,11 @@ impl Prop for C17 {
         self.cases.len() as u64
     }
     fn describe(&self, idx: u64) -> Value {
-        let (c, s) = &self.cases[idx as usize];
-        json!({"idx": idx, "connector": c, "server_selects": s})
+        let (c, s, ver, without) = &self.cases[idx as usize];
+        json!({"idx": idx, "connector": c, "server_selects": s, "server_version_override": format!("{:#x}", ver), "challenge_flags_left_out": format!("{:#x}", without)})
     }
     fn rule(&self) -> String {
-        "cases = all 32 combinations of {NLA, restricted admin, blank credentials, auto logon, password|hash} x 6 credential sets incl. each of domain / user / password empty (every alphabet string as password in thorough) x every protocol the server may select among those offered x 4 orders of the Connector builder calls, plus servers selecting a protocol that was not offered (incl. HYBRID although NLA is off, and standard RDP security): refused with no CredSSP message, no Client Info and no password anywhere (incl. re-configuring a connector that was set up for another account with every flag inverted); full real connect over real TLS; oracle: decrypted TSCredentials and parsed Client Info match the mode table, the negotiation request announces restricted admin, auto-logon bit iff requested, the password (UTF-8 and UTF-16LE) appears neither on the raw transport nor in any NTLM token, credential-bearing messages only inside TLS. Non-trivial: all.".into()
+        "cases = all 32 combinations of {NLA, restricted admin, blank credentials, auto logon, password|hash} x 6 credential sets incl. each of domain / user / password empty (every alphabet string as password in thorough) x every protocol the server may select among those offered x 4 orders of the Connector builder calls, x server versions 0x00080001 / 5 / C, x CHALLENGE flag sets without SEAL / SIGN / both / 128 / ALWAYS_SIGN (the password must not be readable in any CredSSP message), plus servers selecting a protocol that was not offered (incl. HYBRID although NLA is off, and standard RDP security): refused with no CredSSP message, no Client Info and no password anywhere (incl. re-configuring a connector that was set up for another account with every flag inverted); full real connect over real TLS; oracle: decrypted TSCredentials and parsed Client Info match the mode table, the negotiation request announces restricted admin, auto-logon bit iff requested, the password (UTF-8 and UTF-16LE) appears neither on the raw transport nor in any NTLM token, credential-bearing messages only inside TLS. Non-trivial: all.".into()
     }
     fn assumptions(&self) -> Vec<String> {
         vec!["with a password hash the connector has no clear-text password: both structures then carry an empty password".into()]
@@ -414,8 +423,12 @@ impl Prop for C17 {
         }
     }
     fn run_case(&mut self, idx: u64) -> Outcome {
-        let (c, sel) = self.cases[idx as usize].clone();
-        let p = ServerParams { selected: sel, ..Default::default() };
+        let (c, sel, ver, without) = self.cases[idx as usize].clone();
+        let mut p = ServerParams { selected: sel, ..Default::default() };
+        if ver != 0 {
+            p.version = ver;
+        }
+        p.ntlm.flags &= !without;
         let t = match converse(&c, &p, Cert::A, false) {
             Ok(t) => t,
             Err(e) => return Outcome::fail("setup", "machinery", e),
@@ -426,6 +439,15 @@ impl Prop for C17 {
                 Some(f) => Outcome::fail("leak-or-mode-mismatch", f.sig, f.detail),
                 None => Outcome::pass(format!("unoffered-selection-refused:nla{}:sel{}", c.use_nla, sel), true),
             };
+        }
+        if without != 0 {
+            // a CHALLENGE that leaves out flags the client asked for: refusing to go on is fine; going on must not expose the password
+            if let Some(f) = wire::check_c17_readable(&t) {
+                return Outcome::fail("leak-or-mode-mismatch", f.sig, f.detail);
+            }
+            if !t.connect_ok {
+                return Outcome::pass(format!("challenge-without-{:#x}:refused", without), true);
+            }
         }
         match wire::check_c17(&t) {
             Some(f) => Outcome::fail("leak-or-mode-mismatch", f.sig, f.detail),
